@@ -34,9 +34,10 @@ Proof. exact peers_nodup. Qed.
 Print Assumptions C08_peer_table_has_no_duplicates.
 
 (* Transport::onReady with the write table: in every history the acceptor thread (which prepares the write
-   queue of a new connection before the worker registers it), the kernel and the peers can produce,
-   the worker never re-arms - or fails on - a descriptor it does not own, so no exception ends it ... *)
-Theorem C08_worker_never_touches_foreign_descriptor : forall h s, towrite_covers s ->
+   queue of a new connection before the worker registers it), the kernel, the peers and the handlers (whose flush() can
+   drain and erase a queue at any point) can produce - a lone writable report only for a descriptor the worker has
+   registered -, the worker never re-arms a descriptor it does not own and never fails, so no exception ends it ... *)
+Theorem C08_worker_never_touches_foreign_descriptor : forall h s,
   (forall pre e post, h = pre ++ e :: post -> wev_ok (fold_left (wstep true) pre s) e = true) ->
   w_faults (fold_left (wstep true) h s) = w_faults s.
 Proof. exact wrun_guarded_never_faults. Qed.
@@ -50,6 +51,14 @@ Theorem C08_refuted_unguarded_writable_half :
   /\ w_faults (wrun true [WPrepare 7; WRegister 7; WIn 7 true; WPrepare 7; WOut 7 true]) = 0.
 Proof. exact unguarded_faults. Qed.
 Print Assumptions C08_refuted_unguarded_writable_half.
+(* ... and so is the dispatch that threw when the writable half found nothing queued (the code until the fix of the second
+   seeding round): a handler that flushes while the input is handled drains the queue between the two halves.  Replayed on
+   the implementation as the cases "E <busy> <size> f" of C06/C07 (worker abort before the fix). *)
+Theorem C08_refuted_throw_when_nothing_queued :
+  w_faults (fold_left (wstep_gen true true) [WPrepare 7; WRegister 7; WIn 7 false; WDrain 7; WOut 7 true] winit) = 1
+  /\ w_faults (wrun true [WPrepare 7; WRegister 7; WIn 7 false; WDrain 7; WOut 7 true]) = 0.
+Proof. exact strict_faults_after_drain. Qed.
+Print Assumptions C08_refuted_throw_when_nothing_queued.
 
 (* The per-connection write queue.  In every history of connections reusing descriptor numbers, queued writes,
    complete and incomplete deliveries and disconnections: a connection receives only what was queued for it ... *)
